@@ -173,10 +173,12 @@ def py_build(ids, matches):
 
 # ------------------------------------------------------------------------------- implementation side
 def _mem_limited(fn):
-    """run fn() with a 2 GiB address-space limit (a forged count makes MerkleTree allocate `total` slots)"""
+    """run fn() with room for 160 MiB more address space (a forged count makes MerkleTree allocate `total` slots)"""
     soft, hard = resource.getrlimit(resource.RLIMIT_AS)
     try:
-        resource.setrlimit(resource.RLIMIT_AS, (2 << 30, hard))
+        with open("/proc/self/statm") as f:
+            vm = int(f.read().split()[0]) * resource.getpagesize()
+        resource.setrlimit(resource.RLIMIT_AS, (vm + (160 << 20), hard))
         return fn()
     finally:
         resource.setrlimit(resource.RLIMIT_AS, (soft, hard))
@@ -401,6 +403,64 @@ def is_valid_line(op, root, total, hashes, flags):
     return f"{op} {xb(root)} {total} {blist(hashes)} {xb(flags)}"
 
 
+_ALT = {}
+
+
+def apply_alteration(src, d):
+    """expand an alteration descriptor of a proof into a `sound` predicate case"""
+    ids, matches, total, hashes, flags, root = src
+    hroot = root[::-1]
+    hs, fl, rt, tot, must_fail, finding = list(hashes), flags, hroot, total, True, None
+    k = d[0]
+    if k == "hash":
+        h2 = bytearray(hs[d[1]])
+        h2[d[2] // 8] ^= 1 << (d[2] % 8)
+        hs[d[1]] = bytes(h2)
+        why = f"hash {d[1]} bit {d[2]}"
+    elif k == "root":
+        r2 = bytearray(rt)
+        r2[d[1] // 8] ^= 1 << (d[1] % 8)
+        rt = bytes(r2)
+        why = f"root bit {d[1]}"
+    elif k == "flag":
+        f2 = bytearray(fl)
+        f2[d[1] // 8] ^= 1 << (d[1] % 8)
+        fl, must_fail, why = bytes(f2), False, f"flag bit {d[1]}"
+    elif k == "flagdrop":
+        fl, must_fail, why = fl[:-1], False, "last flag byte dropped"
+    elif k == "flagadd":
+        fl, must_fail, why = fl + bytes([d[1]]), False, f"flag byte {d[1]} added"
+    elif k == "count":
+        tot, must_fail, finding, why = d[1], False, "F17b", f"count {total} -> {d[1]}"
+    elif k == "drop":
+        del hs[d[1]]
+        why = f"hash {d[1]} dropped"
+    elif k == "extra":
+        hs.insert(d[1], bytes.fromhex(d[2]))
+        why = f"extra hash at {d[1]}"
+    elif k == "swap":
+        if len(hs) >= 2 and hs[0] != hs[1]:
+            hs[0], hs[1] = hs[1], hs[0]
+            why = "first two hashes swapped"
+        else:
+            must_fail, why = False, "nothing to swap"
+    else:
+        raise MachineryError(f"unknown alteration {d}")
+    return proof_case(ids, tot, hs, fl, rt, must_fail=must_fail, why=why, finding=finding)
+
+
+def eval_alteration(a):
+    pi, d = a
+    return eval_pred(("sound", apply_alteration(_ALT["src"][pi], d)))
+
+
+def _dbg(ctx, label):
+    if os.environ.get("VERIF_DEBUG"):
+        import sys
+        import time
+        sys.stderr.write(f"[c17 {time.time() - ctx.t0:7.1f}s] {label}\n")
+
+
 def run(ctx):
     import buidl.helper as H
     import buidl.block as B
@@ -509,7 +569,8 @@ def run(ctx):
         lines.append(("build", ("build " + bits_tok(matches) + " " + blist(ids),
                                 f"{total} {blist(hashes)} {xb(flags)}")))
 
-    # ---- alterations of sampled proofs
+    _dbg(ctx, 'trees built')
+    # ---- alterations of sampled proofs (compact descriptors, expanded in the workers: see apply_alteration)
     alter_src = []
     for n in [1, 2, 3, 4, 5, 6, 7, 8, 9, 12, 16, 21] + [rng.randrange(2, 40) for _ in range(ctx.n(4, 40))]:
         ids = [rbytes(rng, 32) for _ in range(n)]
@@ -520,64 +581,47 @@ def run(ctx):
     for ids, matches, total, hashes, flags, root in sampled:
         if len(hashes) <= 16 and rng.random() < 0.5:
             alter_src.append((ids, matches, total, hashes, flags, root))
-    model_sample = []
-    for ids, matches, total, hashes, flags, root in alter_src:
-        hroot = root[::-1]
-        small = len(ids) <= 64
-        pids = ids if small else [i for i, m in zip(ids, matches) if m]   # (large id lists are not stored in cases)
-
-        def add(kind, tot, hs, fl, rt, must_fail, why, finding=None):
-            case = proof_case(ids if small else pids, tot, hs, fl, rt, must_fail=must_fail, why=why, finding=finding)
-            if not small:
-                case["ids_truncated_to_matched"] = True
-            preds.append(("sound", dict(case, kind=kind)))
-            if tot <= MAX_REAL_TOTAL:
-                model_sample.append((kind, is_valid_line("is_valid", rt, tot, hs, fl)))
-
-        # every single bit of every hash
+    alts = []   # (proof index, descriptor)
+    for pi, (ids, matches, total, hashes, flags, root) in enumerate(alter_src):
+        full = set(range(len(hashes))) if len(hashes) <= 6 or ctx.thorough else set(rng.sample(range(len(hashes)), 3))
         for hi in range(len(hashes)):
-            for bit in range(256):
-                h2 = bytearray(hashes[hi])
-                h2[bit // 8] ^= 1 << (bit % 8)
-                add("alter:hash", total, hashes[:hi] + [bytes(h2)] + hashes[hi + 1:], flags, hroot, True, f"hash {hi} bit {bit}")
-        # every single bit of the root
+            for bit in (range(256) if hi in full else rng.sample(range(256), 8)):
+                alts.append((pi, ("hash", hi, bit)))
+            alts.append((pi, ("drop", hi)))
+            alts.append((pi, ("extra", hi, rbytes(rng, 32).hex())))
         for bit in range(256):
-            r2 = bytearray(hroot)
-            r2[bit // 8] ^= 1 << (bit % 8)
-            add("alter:root", total, hashes, flags, bytes(r2), True, f"root bit {bit}")
-        # every single flag bit (including padding bits)
+            alts.append((pi, ("root", bit)))
         for bit in range(8 * len(flags)):
-            f2 = bytearray(flags)
-            f2[bit // 8] ^= 1 << (bit % 8)
-            add("alter:flags", total, hashes, bytes(f2), hroot, False, f"flag bit {bit}")
-        # flag bytes dropped / added
-        add("alter:flags", total, hashes, flags[:-1], hroot, False, "last flag byte dropped")
-        add("alter:flags", total, hashes, flags + b"\x00", hroot, False, "zero flag byte added")
-        add("alter:flags", total, hashes, flags + b"\x01", hroot, False, "non-zero flag byte added")
-        # every single bit of the 4-byte count (forged total: F17b)
+            alts.append((pi, ("flag", bit)))
+        alts += [(pi, ("flagdrop",)), (pi, ("flagadd", 0)), (pi, ("flagadd", 1)), (pi, ("extra", len(hashes), rbytes(rng, 32).hex())),
+                 (pi, ("extra", len(hashes), hashes[-1].hex())), (pi, ("swap",))]
         for bit in range(32):
-            t2 = total ^ (1 << bit)
-            add("alter:count", t2, hashes, flags, hroot, False, f"count bit {bit}", finding="F17b")
+            alts.append((pi, ("count", total ^ (1 << bit))))
         for t2 in (0, total + 1, total - 1, 2 * total, (total + 1) // 2):
             if t2 != total and t2 >= 0:
-                add("alter:count", t2, hashes, flags, hroot, False, f"count {total} -> {t2}", finding="F17b")
-        # dropped / extra / swapped hashes
-        for hi in range(len(hashes)):
-            add("alter:drop", total, hashes[:hi] + hashes[hi + 1:], flags, hroot, True, f"hash {hi} dropped")
-            add("alter:extra", total, hashes[:hi] + [rbytes(rng, 32)] + hashes[hi:], flags, hroot, True, f"extra hash at {hi}")
-        add("alter:extra", total, hashes + [rbytes(rng, 32)], flags, hroot, True, "extra hash at the end")
-        add("alter:extra", total, hashes + [hashes[-1]], flags, hroot, True, "last hash repeated")
-        if len(hashes) >= 2 and hashes[0] != hashes[1]:
-            add("alter:swap", total, [hashes[1], hashes[0]] + hashes[2:], flags, hroot, True, "first two hashes swapped")
-    rng.shuffle(model_sample)
-    # the model is compared on a sample of the alterations, stratified by kind
+                alts.append((pi, ("count", t2)))
+    _ALT["src"] = alter_src
+    alt_results = pmap(eval_alteration, alts, workers=ctx.workers, chunksize=256)
+    _dbg(ctx, f'{len(alts)} alterations evaluated')
     per_kind = {}
-    for kind, line in model_sample:
-        per_kind.setdefault(kind, []).append(line)
-    quota = ctx.n(500, 5000)
-    for kind, ls in per_kind.items():
-        for line in ls[:quota]:
-            lines.append((kind, line))
+    for (pi, d), (ok, got, want) in zip(alts, alt_results):
+        kind = "alter:" + {"flagdrop": "flags", "flagadd": "flags", "flag": "flags"}.get(d[0], d[0])
+        if ok:
+            rec.ok(kind, (pi, d))
+            rec.count(kind + (":reject" if got == REJECT else ":invalid" if got == "0" else ":validates"))
+        else:
+            case = apply_alteration(alter_src[pi], d)
+            rec.violation(kind, dict(case, pred="sound"), got, want, note=case["why"], finding=case.get("finding"))
+        per_kind.setdefault(kind, []).append((pi, d))
+    # the model is compared on a sample of the alterations, stratified by kind
+    quota = ctx.n(400, 4000)
+    for kind, l in per_kind.items():
+        rng.shuffle(l)
+        for pi, d in l[:quota]:
+            c = apply_alteration(alter_src[pi], d)
+            if c["total"] <= MAX_REAL_TOTAL:
+                lines.append((kind, f"is_valid {c['root']} {c['total']} {len(c['hashes'])} {' '.join(c['hashes'])} {c['flags']}"
+                              if c["hashes"] else f"is_valid {c['root']} {c['total']} 0 {c['flags']}"))
 
     # F17b witness: a 4-transaction block, the proof claims 2 transactions and "proves" the two inner nodes
     w_ids = [bytes([k]) * 32 for k in (1, 2, 3, 4)]
@@ -715,9 +759,11 @@ def run(ctx):
         for c in variants:
             lines.append(("headers_valid", "headers_valid " + " ".join([str(len(c))] + [fmt_header_toks(h) for h in c])))
 
+    _dbg(ctx, f'{len(lines)} lines generated')
     # ---- run both sides
     reqs = [l if isinstance(l, str) else l[0] for _, l in lines]
     answers = batch_parallel(drv, reqs, workers=ctx.workers)
+    _dbg(ctx, 'model answered')
     todo = [r for (k, _), r in zip(lines, reqs) if k != "build"]
     impl_answers = dict(zip(todo, pmap(_impl_of, todo, workers=ctx.workers, chunksize=16)))
     for (kind, l), model in zip(lines, answers):
@@ -738,7 +784,9 @@ def run(ctx):
             rec.sample(kind, {"request": line[:600], "answer": model[:300]})
         if impl == REJECT:
             rec.count(kind + ":reject")
+    _dbg(ctx, 'implementation answered')
     results = pmap(eval_pred, preds, workers=ctx.workers, chunksize=64)
+    _dbg(ctx, f'{len(preds)} predicates evaluated')
     for (kind, case), (ok, got, want) in zip(preds, results):
         k = case.get("kind", kind)
         if ok:
